@@ -12,7 +12,7 @@ CPython (Drivers/PyFuns.lean): a `Conditions` object is an object with `audience
 namespace PyTie
 open MiniPy
 
-def noExt : Ext := fun _ _ => none
+def noExt : Ext := fun f _ => .stuck ("external " ++ f)
 
 def encA (a : Option String) : Val := .obj [("text", match a with | some t => .str t | none => .none)]
 def encR (r : List (Option String)) : Val := .obj [("audience", .list (r.map encA))]
@@ -25,11 +25,11 @@ def toModel (rs : List (List (Option String))) : List (List String) := rs.map (f
     (`tm`, arbitrary); `time.strftime`/`time.gmtime` only build message text. -/
 def timeExt (now : Int) (tm : String → Int) : Ext := fun f args =>
   match f, args with
-  | "time_util.utc_now", [] => some (.int now)
-  | "time_util.str_to_time", [.str s] => some (.int (tm s))
-  | "calendar.timegm", [.int t] => some (.int t)
-  | "time.gmtime", [_] => some .none
-  | "time.strftime", [_, _] => some (.str "")
-  | _, _ => none
+  | "time_util.utc_now", [] => .ok (.int now)
+  | "time_util.str_to_time", [.str s] => .ok (.int (tm s))
+  | "calendar.timegm", [.int t] => .ok (.int t)
+  | "time.gmtime", [_] => .ok .none
+  | "time.strftime", [_, _] => .ok (.str "")
+  | f, _ => .stuck ("external " ++ f)
 
 end PyTie
